@@ -2055,7 +2055,7 @@ def _get_error_context(input_, token):
     pointline = ''
     i = 0
     while i < col - 1:
-        if lines[-1][i].isspace():
+        if i < len(lines[-1]) and lines[-1][i].isspace():
             pointline += lines[-1][i]
             # otherwise, tabs complicate the alignment
         else:
